@@ -15,6 +15,11 @@
                 = N s; default: the segment duration (assets with varying durations: any value between the
                 shortest and the longest segment is accepted).
    X01.spd      spd_N   ("suggestedPresentationDelay (seconds)"): MPD@suggestedPresentationDelay = N s; else absent.
+   X01.snr      snr_N ("startNumber (default=0) -1 translates to no value in MPD (fallback to default = 1)"): in an MPD with
+                SegmentTemplate $Number$ and @duration (no periods_) every AdaptationSet of the VoD MPD has
+                SegmentTemplate@startNumber = N, 0 without snr_; with snr_-1 no @startNumber (an explicit "1", the
+                default it falls back to, is accepted).  With a SegmentTimeline the number of the first listed
+                segment moves with the window and is not judged here (C02).
    X01.ast      start_N / ast_N ("timeline start (and availabilityStartTime) relative to Epoch (in seconds)"):
                 MPD@availabilityStartTime = N; default 0.  startrel_N ("... relative to now (in seconds)"):
                 = now + N where "now" in seconds may be rounded down or up.  With startrel_/stoprel_ exactly one
@@ -55,10 +60,12 @@
    X01.cont     periods_N + continuous_1 ("period continuity signaling"): every AdaptationSet of the VoD MPD in every
                 Period but the first listed one carries SupplementalProperty urn:mpeg:dash:period-continuity:2015;
                 without continuous_ no AdaptationSet carries it.
-   X01.drm      eccp_cenc|cbcs ("Encryption on-the-fly with keys via ECCP"): every audio and video AdaptationSet has
-                exactly one ContentProtection urn:mpeg:dash:mp4protection:2011 with @value = the scheme and at least
-                one further ContentProtection with a non-empty licence URL (Laurl); no ContentProtection on other
-                AdaptationSets; without eccp_/drm_ none at all (VoD assets used are not pre-encrypted).
+   X01.drm      eccp_cenc|cbcs / drm_<configured package> ("Encryption on-the-fly with keys via ECCP or commercial DRM
+                systems"): every audio and video AdaptationSet has exactly one ContentProtection
+                urn:mpeg:dash:mp4protection:2011 with @value = the scheme (eccp_: the given one; drm_: the
+                commonEncryptionScheme of the package's CPIX keys) and at least one further ContentProtection with a
+                non-empty licence URL (Laurl); no ContentProtection on other AdaptationSets; without eccp_/drm_ none
+                at all (VoD assets used are not pre-encrypted).
    X01.indep    Independence: the MPD of a configuration and the MPD of the same configuration without parameter k
                 (same asset, same instant) differ only in what k governs - Governs(k) below - and in the elements
                 that echo the request URL by design (UrlEcho).  For k = periods the comparison is made Period by
@@ -111,20 +118,21 @@ TlCls   == {"SegmentTemplate/SegmentTimeline/S@t", "SegmentTemplate/SegmentTimel
 SigClasses ==
    {"@timeShiftBufferDepth", "@minimumUpdatePeriod", "@suggestedPresentationDelay", "@availabilityStartTime", "@id",
     "@timeShiftBufferDepth!raw", "@minimumUpdatePeriod!raw", "@suggestedPresentationDelay!raw", "@availabilityStartTime!raw",
-    "Location#text", "Location#el", "#ct", "#pos", "@lang", ATO, ATC, ATO \o "!raw"}
+    "Location#text", "Location#el", "#ct", "#pos", "@lang", ATO, ATC, ATO \o "!raw", "SegmentTemplate@startNumber"}
    \cup UtcCls \cup SdCls \cup PrtCls \cup PatchCls \cup ScteCls \cup EpCls \cup ContCls \cup CpCls \cup BaseCls
 
 \* ------------------------------------------------------------------ configurations
-Keys == {"tsbd", "mup", "spd", "start", "ast", "startrel", "stoprel", "utc", "ato", "chunkdur", "ltgt", "patch",
+Keys == {"tsbd", "mup", "spd", "snr", "start", "ast", "startrel", "stoprel", "utc", "ato", "chunkdur", "ltgt", "patch",
          "timesubsstpp", "timesubswvtt", "scte35", "annexI", "traffic", "periods", "continuous", "eccp", "drm"}
 
 \* concrete configuration record: integers with a sentinel for "not given"
-NoCfg == [tsbd |-> -1, mup |-> -1, spd |-> -1, start |-> -1, startkey |-> "start", startrel |-> 0, stoprel |-> 0,
+NoCfg == [tsbd |-> -1, mup |-> -1, spd |-> -1, snr |-> -2, start |-> -1, startkey |-> "start", startrel |-> 0, stoprel |-> 0,
           utc |-> <<>>, ato |-> 0, chunkdur |-> 0, ltgt |-> -1, patch |-> -1, stpp |-> <<>>, wvtt |-> <<>>,
           scte35 |-> 0, annexI |-> 0, traffic |-> 0, periods |-> 0, continuous |-> FALSE, eccp |-> "", drm |-> ""]
 
 HasKey(c, k) ==
    CASE k = "tsbd" -> c.tsbd >= 0           [] k = "mup" -> c.mup >= 0          [] k = "spd" -> c.spd >= 0
+     [] k = "snr" -> c.snr # -2
      [] k = "start" -> c.start >= 0 /\ c.startkey = "start"                     [] k = "ast" -> c.start >= 0 /\ c.startkey = "ast"
      [] k = "startrel" -> c.startrel # 0    [] k = "stoprel" -> c.stoprel # 0   [] k = "utc" -> c.utc # <<>>
      [] k = "ato" -> c.ato # 0              [] k = "chunkdur" -> c.chunkdur # 0 [] k = "ltgt" -> c.ltgt >= 0
@@ -135,6 +143,7 @@ HasKey(c, k) ==
 
 Remove(c, k) ==
    CASE k = "tsbd" -> [c EXCEPT !.tsbd = -1]     [] k = "mup" -> [c EXCEPT !.mup = -1]      [] k = "spd" -> [c EXCEPT !.spd = -1]
+     [] k = "snr" -> [c EXCEPT !.snr = -2]
      [] k \in {"start", "ast"} -> [c EXCEPT !.start = -1, !.startkey = "start"]
      [] k = "startrel" -> [c EXCEPT !.startrel = 0]  [] k = "stoprel" -> [c EXCEPT !.stoprel = 0]
      [] k = "utc" -> [c EXCEPT !.utc = <<>>]     [] k = "ato" -> [c EXCEPT !.ato = 0]       [] k = "chunkdur" -> [c EXCEPT !.chunkdur = 0]
@@ -159,6 +168,7 @@ ValidCfg(c, mode) ==
    /\ c.ato >= -1 /\ c.chunkdur >= 0
    /\ (c.mup = -1 \/ c.mup > 0)
    /\ (c.tsbd <= 172800)
+   /\ c.snr >= -2
    /\ (c.continuous => c.periods # 0)                       \* "Only valid when periods_per_hour is set"
    /\ ~(c.eccp # "" /\ c.drm # "")
    /\ c.eccp \in {"", "cenc", "cbcs"}
@@ -181,6 +191,7 @@ Governs(k) ==
    CASE k = "tsbd"     -> Pat(Top, {"@timeShiftBufferDepth", "@timeShiftBufferDepth!raw"}) \cup TL
      [] k = "mup"      -> Pat(Top, {"@minimumUpdatePeriod", "@minimumUpdatePeriod!raw"})
      [] k = "spd"      -> Pat(Top, {"@suggestedPresentationDelay", "@suggestedPresentationDelay!raw"})
+     [] k = "snr"      -> Pat(ASall, {"SegmentTemplate@startNumber"})
      [] k \in {"start", "ast", "startrel"} -> AstPats
      [] k = "stoprel"  -> {}                                   \* (only the Location element, which is a URL echo)
      [] k = "utc"      -> Pat(Top, UtcCls)
@@ -205,17 +216,18 @@ UrlEcho == Pat(Top, {"Location#text", "PatchLocation#text"}) \cup Pat(Media, Lau
 \* sets of independent keys are disjoint):
 \*  D1 start/ast/startrel are one parameter in three spellings
 \*  D2 ato, chunkdur, ltgt together make up the low-latency signalling
-\*  D3 tsbd, start*, ato, periods all determine which segments the MPD lists (window, anchor, availability, split)
+\*  D3 tsbd, start*, ato, periods, snr all determine which segments the MPD lists and under which numbers
+\*     (window, anchor, availability, split, first number)
 \*  D4 start* anchors the ProducerReferenceTime that chunkdur+ato introduce
 \*  D5 continuous is only defined with periods
 \*  D6 eccp and drm are alternatives for the same ContentProtection signalling
 \*  D7 generated subtitle AdaptationSets are AdaptationSets like the others: they list the same segments, carry the
 \*     same availability / continuity / period attributes
 StartKeys == {"start", "ast", "startrel"}
-DepGroups == { StartKeys, {"ato", "chunkdur", "ltgt"}, {"tsbd", "ato", "periods"} \cup StartKeys,
+DepGroups == { StartKeys, {"ato", "chunkdur", "ltgt"}, {"tsbd", "ato", "periods", "snr"} \cup StartKeys,
                StartKeys \cup {"chunkdur"}, {"periods", "continuous"}, {"eccp", "drm"} }
 SubsKeys  == {"timesubsstpp", "timesubswvtt"}
-SubsDeps  == {"tsbd", "ato", "chunkdur", "periods", "continuous"} \cup StartKeys
+SubsDeps  == {"tsbd", "ato", "chunkdur", "periods", "continuous", "snr"} \cup StartKeys
 Dependent(k1, k2) ==
    \/ \E g \in DepGroups : k1 \in g /\ k2 \in g
    \/ (k1 \in SubsKeys /\ k2 \in SubsDeps) \/ (k2 \in SubsKeys /\ k1 \in SubsDeps)
@@ -238,7 +250,8 @@ ScopeOfKey(e, key) == "AS:" \o e.vas[CtOf(e, key)][2]
 AsKeysIn(F, p, scopes) == { f[4] : f \in { g \in F : g[1] = p /\ g[2] \in scopes /\ g[3] = "#ct" } }
 
 \* ------------------------------------------------------------------ value clauses: (c, e, now, F) -> BOOLEAN
-\* e = [mode, segMin, segMax (ms), vas (<<key, ct>>...), vodId, vodUtc (<<scheme, value>>...), host, url ([k, raw]...)]
+\* e = [mode, segMin, segMax (ms), vas (<<key, ct>>...), vodId, vodUtc (<<scheme, value>>...), host, url ([k, raw]...),
+\*      drmScheme (commonEncryptionScheme of the keys of the drm_ package, "" without drm_)]
 \* now = <<seconds, ms remainder>> of the request instant
 
 OkShape(c, e, F) ==
@@ -256,6 +269,15 @@ OkMup(c, e, F) ==
       ELSE \E d \in e.segMin..e.segMax : o = {<<"", "", ToString(d)>>}
 
 OkSpd(c, e, F) == Obs(F, "", Top, "@suggestedPresentationDelay") = (IF c.spd >= 0 THEN {<<"", "", Ms(c.spd)>>} ELSE {})
+
+EffSnr(c) == IF c.snr = -2 THEN 0 ELSE c.snr
+OkSnr(c, e, F) ==
+   (e.mode = "number" /\ c.periods = 0) =>
+      \A p \in PeriodsOf(F) : \A i \in 1..Len(e.vas) :
+         LET key == e.vas[i][1]
+             o == { x \in Obs(F, p, {"AS:" \o e.vas[i][2]}, "SegmentTemplate@startNumber") : x[1] = key }
+         IN IF EffSnr(c) >= 0 THEN o = {<<key, "SegmentTemplate[1]", ToString(EffSnr(c))>>}
+            ELSE o \subseteq {<<key, "SegmentTemplate[1]", "1">>}
 
 NowReadings(now) == {now[1]} \cup (IF now[2] > 0 THEN {now[1] + 1} ELSE {})
 AstReadings(c, now) == IF c.startrel # 0 THEN { s + c.startrel : s \in NowReadings(now) }
@@ -378,24 +400,25 @@ OkCont(c, e, F) ==
               \E f \in C : f[1] = p /\ f[4] = key
 
 MP4P == "ContentProtection{urn:mpeg:dash:mp4protection:2011}[1]"
+CencScheme(c, e) == IF c.eccp # "" THEN c.eccp ELSE e.drmScheme     \* drm_: the scheme of the configured package's keys
 OkDrm(c, e, F) ==
    \A p \in PeriodsOf(F) :
       LET S == { f \in F : f[1] = p /\ f[2] \in ASall /\ f[3] \in CpCls }
       IN IF c.eccp = "" /\ c.drm = "" THEN S = {}
          ELSE /\ \A f \in S : f[2] \in Media
-              /\ c.eccp # "" =>
-                   \A key \in VasKeys(e, {"video", "audio"}) :
+              /\ \A key \in VasKeys(e, {"video", "audio"}) :
                       LET sc == ScopeOfKey(e, key)
-                      IN /\ <<p, sc, "ContentProtection@value", key, MP4P, c.eccp>> \in S
+                      IN /\ <<p, sc, "ContentProtection@value", key, MP4P, CencScheme(c, e)>> \in S
                          /\ \A f \in S : (f[4] = key /\ f[3] = "ContentProtection@schemeIdUri" /\ f[6] = "urn:mpeg:dash:mp4protection:2011")
                                             => f[5] = MP4P
                          /\ \E f \in S : f[4] = key /\ f[3] \in LaurlCls /\ f[6] # ""
 
 \* all value clauses, by name (the trace specification reports the failing ones)
-ClauseNames == <<"X01.shape", "X01.tsbd", "X01.mup", "X01.spd", "X01.ast", "X01.utc", "X01.ll", "X01.patch",
+ClauseNames == <<"X01.shape", "X01.tsbd", "X01.mup", "X01.spd", "X01.snr", "X01.ast", "X01.utc", "X01.ll", "X01.patch",
                  "X01.timesubs", "X01.scte35", "X01.annexI", "X01.traffic", "X01.cont", "X01.drm">>
 ClauseOk(name, c, e, now, F) ==
    CASE name = "X01.shape" -> OkShape(c, e, F)     [] name = "X01.tsbd" -> OkTsbd(c, e, F)    [] name = "X01.mup" -> OkMup(c, e, F)
+     [] name = "X01.snr" -> OkSnr(c, e, F)
      [] name = "X01.spd" -> OkSpd(c, e, F)         [] name = "X01.ast" -> OkAst(c, e, now, F) [] name = "X01.utc" -> OkUtc(c, e, F)
      [] name = "X01.ll" -> OkLl(c, e, F)           [] name = "X01.patch" -> OkPatch(c, e, F)  [] name = "X01.timesubs" -> OkTimesubs(c, e, F)
      [] name = "X01.scte35" -> OkScte(c, e, F)     [] name = "X01.annexI" -> OkAnnexI(c, e, F) [] name = "X01.traffic" -> OkTraffic(c, e, F)
